@@ -216,6 +216,12 @@ class StmtMixin:
     def assign(self, target, v, st, line):
         """Returns list of states."""
         if isinstance(target, ast.Name):
+            gk = self.module_global_key(st, target.id)
+            if gk is not None:
+                # a module global that the function never binds locally (it is only mutated in
+                # place, e.g. `_code_matches.append(m)`): the write-back goes to the global
+                self.write_global(st, gk, self.coerce(v, self.m.globals[gk]))
+                return [st]
             declared = self.local_types.get(target.id)
             if declared is not None:
                 v = self.coerce(v, declared)
@@ -443,8 +449,19 @@ class StmtMixin:
         c = self.m.contracts[fn]
         return k, c.loops.get(k)
 
+    def module_global_key(self, st, name):
+        if name in st.env:
+            return None
+        b = self.m.namespaces.get(self.cur_module, {}).get(name)
+        if b and b[0] == 'global' and name in getattr(self, 'mutated_globals', ()):
+            return b[1]
+        return None
+
     def havoc_loop(self, st, body_nodes, lc, line, extra_names=()):
         names, attrs = assigned_names(body_nodes)
+        implicit = {n: self.module_global_key(st, n) for n in names}
+        implicit = {n: k for n, k in implicit.items() if k is not None}
+        names -= set(implicit)
         # a name that is only the receiver of a mutating method call is rebound only if it holds
         # a list value (objects are mutated through the heap, the reference stays the same)
         for r in set(assigned_names.last_receivers):
@@ -485,7 +502,7 @@ class StmtMixin:
             na = z3.Int(fresh_name('alloc'))
             st.assume(na >= st.alloc)
             st.alloc = na
-        for g in sorted(globs):
+        for g in sorted(set(globs) | set(implicit.values())):
             st.glob[g] = self.fresh_val(st, self.m.globals[g], 'G_' + g.replace('.', '_'))
         return names
 
